@@ -289,6 +289,21 @@ func (wd *World) runOp(op Op) {
 			c2.Batch, c2.Arg = op.A, 1
 			c2.Val = b.numPending()
 			r.end(c2)
+			// ... and the status of every item whose job object the recording queue has seen
+			for _, x := range b.subs {
+				s := wd.subByN(x)
+				q := wd.queue(s.Q)
+				if q == nil || q.rq == nil {
+					continue
+				}
+				if sp, ok := q.rq.objs[x].(StatusProvider); ok {
+					c3 := r.begin(opStatus, s.Q, x)
+					c3.Arg, c3.Batch = 3, op.A
+					c3.Str = sp.Status()
+					c3.OK = sp.IsClosed()
+					r.end(c3)
+				}
+			}
 		case opBatchPending:
 			c := r.begin(opBatchPending, -1, -1)
 			c.Batch = op.A
